@@ -89,7 +89,7 @@ PROPS["C02"] = dict(
         dict(name="self", run="^TestSelfDefence$",
              quick=dict(shards=14, checks=340, timeout=600),
              thorough=dict(shards=14, checks=9000, timeout=3000)),
-        dict(name="fire", run="^TestStartupUnderFire$", quick=dict(shards=2, checks=30, timeout=600), thorough=dict(shards=2, checks=2500, timeout=3000)),
+        dict(name="fire", run="^TestStartupUnderFire$", quick=dict(shards=2, checks=30, timeout=600), thorough=dict(shards=4, checks=400, timeout=3000)),
         dict(name="self-race", run="^TestSelfDefence$", race=True, quick=dict(shards=1, checks=40, timeout=900), thorough=dict(shards=6, checks=250, timeout=3000)),
     ],
     assumptions=PUPPET_ASSUMPTIONS + [
